@@ -2,7 +2,9 @@ package main
 
 import (
 	"fmt"
+	"go/constant"
 	"go/token"
+	"strconv"
 	"strings"
 
 	"golang.org/x/tools/go/ssa"
@@ -317,6 +319,8 @@ func init() {
 		// succession
 		c02SuccessionFirst(c, "succession")
 		c06RevertOnStoreStream(c)
+		c06ReorgSignalIdentity(c)
+		c06FeedUniqueIDs(c)
 	})
 }
 
@@ -629,4 +633,135 @@ func c06ExpectedNumberAlts(f *ssa.Function) bool {
 		}
 	})
 	return ok
+}
+
+// c06ReorgSignalIdentity: the syncer starts a revert when Blockchain.Store fails with ErrParentDoesNotMatchHead
+// (errors.Is in storeTask). Every function between the place the sentinel is produced and that test must hand the error on
+// with its identity: returned as is, or wrapped with %w. A wrap with %v/%s (seeded change C06-J: "say which block") turns a
+// parent mismatch into an ordinary store failure — the orphaned head is never reverted and the node never converges.
+func c06ReorgSignalIdentity(c *Ctx) {
+	p := c.P
+	store := p.Func("blockchain", "Blockchain", "Store")
+	if store == nil {
+		c.und("reorg-signal-identity", "Blockchain.Store", "", "anchor not found")
+		return
+	}
+	reach := p.Reachable([]*ssa.Function{store}, func(caller, callee *ssa.Function) bool {
+		pr := pkgRelOf(callee)
+		return pr != "blockchain" && pr != "blockchain/statebackend" && pr != "db" && !strings.HasPrefix(pr, "db/")
+	})
+	n := 0
+	for _, fn := range reach.Funcs() {
+		if pr := pkgRelOf(fn); pr != "blockchain" && pr != "blockchain/statebackend" {
+			continue // the database helpers are only traversed to reach the closures they run
+		}
+		for _, g := range withAnons(fn) {
+			for _, s := range sitesOf(g) {
+				if s.CalleeName() != "fmt.Errorf" || len(s.Args()) < 2 {
+					continue
+				}
+				k, ok := s.Args()[0].(*ssa.Const)
+				if !ok || k.Value == nil {
+					continue
+				}
+				format := constant.StringVal(k.Value)
+				// error-typed operands handed to Errorf (the variadic slice literal)
+				errArgs := 0
+				if sl, isSl := s.Args()[1].(*ssa.Slice); isSl {
+					if a, isA := sl.X.(*ssa.Alloc); isA {
+						for _, e := range arrayLiteral(a) {
+							v := e
+							switch x := v.(type) {
+							case *ssa.MakeInterface:
+								v = x.X
+							case *ssa.ChangeInterface:
+								v = x.X
+							}
+							if v != nil && v.Type().String() == "error" {
+								errArgs++
+							}
+						}
+					}
+				}
+				if errArgs == 0 {
+					continue
+				}
+				n++
+				c.check(strings.Count(format, "%w") >= errArgs, "reorg-signal-identity", qname(g)+": fmt.Errorf("+strconv.Quote(format)+")", p.Pos(s.Pos()), "errors are wrapped with %w", "an error on the path of Blockchain.Store is re-created with "+strconv.Quote(format)+" (no %w for it): errors.Is(err, ErrParentDoesNotMatchHead) in the syncer no longer recognises a parent mismatch and no revert is started")
+			}
+		}
+	}
+	// the plain pass-through of Blockchain.Store itself
+	okPass := false
+	for _, ret := range returnsOf(store) {
+		last := ret.Results[len(ret.Results)-1]
+		if call, isCall := last.(*ssa.Call); isCall && (call.Call.IsInvoke() && call.Call.Method.Name() == "Store") {
+			okPass = true
+		}
+		if ex, isEx := last.(*ssa.Extract); isEx {
+			if call, isCall := ex.Tuple.(*ssa.Call); isCall && call.Call.IsInvoke() && call.Call.Method.Name() == "Store" {
+				okPass = true
+			}
+		}
+	}
+	if okPass {
+		c.ok("reorg-signal-identity", "Blockchain.Store", p.Pos(fnPos(store)), "returns the backend's error as is")
+	} else if n == 0 {
+		c.und("reorg-signal-identity", "Blockchain.Store", p.Pos(fnPos(store)), "neither a pass-through of the backend's error nor a %w wrap was recognised")
+	}
+}
+
+// c06FeedUniqueIDs: a subscription's key in the feed's subscriber map comes from a counter of the feed that is advanced on
+// every subscribe — never from something that can repeat (the number of live subscribers: seeded change C06-I). A repeated
+// key overwrites a live subscriber's entry: its channel stays open but Send never reaches it again, so a new-heads / reorg
+// subscriber silently misses stored blocks.
+func c06FeedUniqueIDs(c *Ctx) {
+	p := c.P
+	var f *ssa.Function
+	for _, fn := range p.FuncsNamed("feed", "Feed", "subscribe") {
+		if fn.Origin() == nil {
+			f = fn
+		}
+	}
+	if f == nil {
+		c.und("feed-unique-ids", "feed.Feed.subscribe", "", "anchor not found")
+		return
+	}
+	var idVal ssa.Value
+	allInstrsOne(f, func(in ssa.Instruction) {
+		if st, ok := in.(*ssa.Store); ok {
+			if fa, ok := st.Addr.(*ssa.FieldAddr); ok && fieldName(fa.X.Type(), fa.Field) == "id" {
+				idVal = st.Val
+			}
+		}
+	})
+	if idVal == nil {
+		c.und("feed-unique-ids", "feed.Feed.subscribe", p.Pos(fnPos(f)), "the subscription id assignment was not found")
+		return
+	}
+	ok, why := false, "the id is "+term(idVal)
+	if ld, isLd := idVal.(*ssa.UnOp); isLd && ld.Op == token.MUL {
+		if fa, isFA := ld.X.(*ssa.FieldAddr); isFA && len(f.Params) > 0 && fa.X == ssa.Value(f.Params[0]) {
+			ctr := fieldName(fa.X.Type(), fa.Field)
+			allInstrsOne(f, func(in ssa.Instruction) {
+				st, isSt := in.(*ssa.Store)
+				if !isSt {
+					return
+				}
+				fa2, isFA2 := st.Addr.(*ssa.FieldAddr)
+				if !isFA2 || fa2.X != fa.X || fa2.Field != fa.Field {
+					return
+				}
+				if b, isB := st.Val.(*ssa.BinOp); isB && b.Op == token.ADD {
+					if k, isK := b.Y.(*ssa.Const); isK && k.Value != nil && k.Int64() >= 1 {
+						ok = true
+					}
+				}
+			})
+			if !ok {
+				why = "the counter " + ctr + " is not advanced in subscribe"
+			}
+		}
+	}
+	c.check(ok, "feed-unique-ids", "feed.Feed.subscribe", p.Pos(fnPos(f)), "the id is read from a counter of the feed that subscribe advances", why+": ids can repeat while an older subscription with the same id is still live, and its entry in the subscriber map is overwritten")
 }
